@@ -8,6 +8,8 @@ import Nq.SmtpAddr
 import Nq.Inject
 import Nq.Spec.Addr
 import Nq.Spec.Lex822
+import Nq.Spec.HeaderBody
+import Nq.Spec.Hidden
 
 open Nq Nq.Quote Nq.Token822 Nq.SmtpAddr Nq.Inject Nq.Spec.Addr Nq.Spec.Lex822 Drv
 
@@ -364,6 +366,17 @@ def handleI (clk : Clock) (st : Stats) (f : List String) : IO Stats := do
         let r2 := inject env { strategy := 3 } msg
         if !(ex2S == toString r2.exit && (r2.exit != 0 || r2.recips == rcps2)) then
           st ← disagree st s!"kind=I2 env={envS} in={msgh} impl={ex2S} {rcp2S} model={r2.exit} {hexListStr r2.recips}"
+        -- do the (token-level) hypotheses of C17_bcc_text_tokens_partial hold (then oracle (7) is a theorem for the model's message)?
+        match parse ([46] ++ env.defaultdomain), parse ([AT] ++ env.defaulthost), parse ([46] ++ env.plusdomain) with
+        | some tdd, some tdh, some tpd =>
+          let c : RwCfg := { defaulthost := tdh, defaultdomain := tdd, plusdomain := tpd }
+          let ps := Nq.Spec.Hidden.pieceSafe
+          let hyp := ps env.date && ps (str "Resent-" ++ env.date) && ps (msgid env) && ps (str "Resent-" ++ msgid env) &&
+            Nq.Spec.Hidden.fromOk env c &&
+            (Nq.Spec.HeaderBody.specFields inp).all (fun h => (fieldClass (hfieldKnown h)).1 == 0 || nameIn hiddenFields h ||
+              Nq.Spec.Hidden.rewrittenOk c h)
+          st := st.bump (if hyp then "I_hidden_theorem_applies" else "I_hidden_theorem_hypothesis_fails")
+        | _, _, _ => pure ()
         -- oracle (7): no Bcc / Resent-Bcc / Return-Path / Content-Length field in the produced header
         let names := fieldNames msg
         if names.any (fun n => hiddenFields.contains n) then
@@ -396,12 +409,78 @@ def handleI (clk : Clock) (st : Stats) (f : List String) : IO Stats := do
     | _, _, _, _, _, _, _, _ => disagree st "unparsable I line"
   | _ => disagree st s!"unparsable I line ({f.length} fields)"
 
+/-- B line: the real `headerbody()` run directly.  DISAGREE: the model `Inject.headerbody` delivers other fields /
+body pieces (or the call failed).  ORACLES, on the IMPLEMENTATION's fields and body (`C17_headerbody_spec`,
+`C17_headerbody_laws`): they are the description's (`Spec.HeaderBody.specFields/specBody`); they reassemble the
+input (`reassembles`); every field is accepted by `hfield_valid`'s model and is one logical line; `hdone` was
+called once, between the fields and the body. -/
+def handleB (st : Stats) (f : List String) : IO Stats := do
+  match f with
+  | [inh, rcS, ordS, fieldsS, bodyS] =>
+    match unhex inh, hexList fieldsS, hexList bodyS with
+    | some inp, some flds, some body =>
+      let ls := Nq.Spec.HeaderBody.linesOf inp
+      let mut st := note st (66 :: inp) (flds.length > 0 && body.length > 0)
+      st := st.bump "B_checked"
+      st := st.bump (if flds.length ≥ 3 then "B_fields_3plus" else s!"B_fields_{flds.length}")
+      if flds.any (fun x => Nq.Spec.HeaderBody.isFromLine (Nq.Spec.HeaderBody.unalter x) && Nq.Spec.HeaderBody.unalter x != x) then st := st.bump "B_mbox_line"
+      if flds.any (fun x => (x.dropLast.contains LF)) then st := st.bump "B_continuation"
+      if body.isEmpty then st := st.bump "B_no_body"
+      match Nq.Spec.HeaderBody.rest ls with
+      | l :: _ => if l != [LF] then st := st.bump (if Nq.Spec.HeaderBody.isCont l then "B_ended_by_stray_continuation" else "B_inserted_blank_line")
+                  else st := st.bump "B_blank_line_separator"
+      | [] => pure ()
+      if !inp.isEmpty && inp.getLast? != some LF then st := st.bump "B_unterminated_last_line"
+      let hb := headerbody inp
+      if !(rcS == "0" && hb.fields == flds && hb.body == body) then
+        st ← disagree st s!"kind=B in={inh} impl={rcS} {fieldsS} {bodyS} model=0 {hexListStr hb.fields} {hexListStr hb.body}"
+      if !(Nq.Spec.HeaderBody.specFields inp == flds && Nq.Spec.HeaderBody.specBody inp == body) then
+        st ← oracleFail st s!"kind=Bspec in={inh} fields={fieldsS} body={bodyS} expected_fields={hexListStr (Nq.Spec.HeaderBody.specFields inp)} expected_body={hexListStr (Nq.Spec.HeaderBody.specBody inp)}"
+      if !(Nq.Spec.HeaderBody.reassembles inp flds body) then
+        st ← oracleFail st s!"kind=Breassemble in={inh} fields={fieldsS} body={bodyS}"
+      if !(flds.all (fun x => hfieldValid x && Nq.Spec.HeaderBody.logicalLine x)) then
+        st ← oracleFail st s!"kind=Bfield in={inh} fields={fieldsS}"
+      if ordS != "1" then
+        st ← oracleFail st s!"kind=Border in={inh} fields={fieldsS} body={bodyS}"
+      return st
+    | _, _, _ => disagree st "unparsable B line"
+  | _ => disagree st "unparsable B line"
+
+/-- the executable form of `Nq.Lemmas.C17HB.wfField` (the lemma file is not linked): one logical line, valid name, not a `From ` line -/
+def wfFieldX (t : Bytes) : Bool := Nq.Spec.HeaderBody.logicalLine t && hfieldValid t && !Nq.Spec.HeaderBody.isFromLine t
+
+/-- W line: a message built by construction from field texts and a tail.  When the hypotheses of
+`C17_headerbody_wellformed` hold (every text `wfField`, tail empty or beginning with LF) the ORACLE requires the real
+`headerbody()` to have delivered exactly these texts and a body that flattens to the tail (final LF supplied). -/
+def handleW (st : Stats) (f : List String) : IO Stats := do
+  match f with
+  | [textsS, tailS, rcS, ordS, fieldsS, bodyS] =>
+    match hexList textsS, unhex tailS, hexList fieldsS, hexList bodyS with
+    | some texts, some tail, some flds, some body =>
+      let inp := texts.flatten ++ tail
+      let mut st := note st (87 :: inp) (texts.length > 1)
+      let hb := headerbody inp
+      if !(rcS == "0" && hb.fields == flds && hb.body == body) then
+        st ← disagree st s!"kind=W texts={textsS} tail={tailS} in={hex inp} impl={rcS} {fieldsS} {bodyS} model=0 {hexListStr hb.fields} {hexListStr hb.body}"
+      if texts.all wfFieldX && (tail.isEmpty || tail.head? == some LF) then
+        st := st.bump "W_wellformed_checked"
+        if texts.any (fun t => t.dropLast.contains LF) then st := st.bump "W_with_continuation"
+        if !(ordS == "1" && flds == texts && body.flatten == Nq.Spec.HeaderBody.norm tail) then
+          st ← oracleFail st s!"kind=Wfields texts={textsS} tail={tailS} in={hex inp} fields={fieldsS} body={bodyS}"
+      else
+        st := st.bump "W_not_wellformed_skipped"
+      return st
+    | _, _, _, _ => disagree st "unparsable W line"
+  | _ => disagree st "unparsable W line"
+
 def handle (clk : IO.Ref Clock) (st : Stats) (line : String) : IO Stats := do
   match fields line with
   | "Q" :: f => handleQ st f
   | "P" :: f => handleP st f
   | "R" :: f => handleR st f
   | "I" :: f => handleI (← clk.get) st f
+  | "B" :: f => handleB st f
+  | "W" :: f => handleW st f
   | ["C", t, p, d, s] =>
     clk.set { starttime := t.toNat?.getD 0, pid := p.toNat?.getD 0, date := (unhex d).getD [], stamp := (unhex s).getD [] }
     return st
